@@ -2,6 +2,7 @@ package main
 
 import (
 	"fmt"
+	"go/types"
 	"os"
 	"sort"
 	"strings"
@@ -98,6 +99,35 @@ func derivedFrom(v Val, fn string, depth int) bool {
 	return false
 }
 
+// recorderCellIn finds, in v (through uninterpreted applications), a pointer to a
+// freshly allocated value of a verified recorder type.
+func recorderCellIn(p *Program, v Val, depth int) *Cell {
+	if depth > 8 {
+		return nil
+	}
+	switch x := v.(type) {
+	case *Ptr:
+		if x.Cell != nil && x.Cell.Alloc && len(x.Path) == 0 && x.SymIdx == nil {
+			if ri := recorderOf(p, x.Cell.Type); ri != nil && ri.Why == "" {
+				return x.Cell
+			}
+		}
+	case *Opaque:
+		for _, a := range x.Args {
+			if c := recorderCellIn(p, a, depth+1); c != nil {
+				return c
+			}
+		}
+	case Tuple:
+		for _, a := range x {
+			if c := recorderCellIn(p, a, depth+1); c != nil {
+				return c
+			}
+		}
+	}
+	return nil
+}
+
 func isBufferPtr(v Val) (*Ptr, bool) {
 	p, ok := v.(*Ptr)
 	if !ok || p.Cell == nil || len(p.Path) != 0 || p.SymIdx != nil {
@@ -156,10 +186,37 @@ func runLoader(p *Program, L *ssa.Function) (*Engine, []Outcome, map[*ssa.Functi
 		return ok
 	}
 	inlined := map[*ssa.Function]bool{L: true}
+	// a hand-written recording reader that keeps the tee contract (recorder.go) is followed like
+	// the tee it stands for: its constructor and accessors are inlined, what its recording field
+	// holds after the parser ran is "the bytes recorded so far" (the parser fills it through
+	// bufio, behind the interpreter's back), and stores of the loader itself into it are noted
+	recCell := func(v Val) *recorderInfo {
+		ptr, ok := v.(*Ptr)
+		if !ok || ptr.Cell == nil || !ptr.Cell.Alloc || ptr.SymIdx != nil {
+			return nil
+		}
+		if ri := recorderOf(p, ptr.Cell.Type); ri != nil && ri.Why == "" {
+			return ri
+		}
+		return nil
+	}
+	e.LoadHook = func(st *State, ptr *Ptr) (Val, bool) {
+		ri := recCell(&Ptr{Cell: ptr.Cell})
+		if ri == nil || ptr.SymIdx != nil || len(ptr.Path) != 1 || ptr.Path[0] != ri.Rec {
+			return nil, false
+		}
+		base := &Opaque{Key: fmt.Sprintf("recorded#%d@%d", ptr.Cell.ID, len(st.events)), Fn: "recorded", Args: []Val{&Ptr{Cell: ptr.Cell}, formInt(int64(len(st.events)))}}
+		return &SliceVal{Base: base, Lo: formInt(0), Len: e.A.App("len", types.Typ[types.Int], base), Elem: types.Typ[types.Uint8]}, true
+	}
+	e.StoreHook = func(st *State, ptr *Ptr, v Val) {
+		if recCell(&Ptr{Cell: ptr.Cell}) != nil {
+			st.addEvent(Event{Kind: "recorder-store", Fn: "store", Recv: ptr, Args: []Val{v}})
+		}
+	}
 	e.InlineIf = func(st *State, fn *ssa.Function, args, bindings []Val) bool {
 		yes := fn.Parent() != nil && inlined[fn.Parent()]
 		for _, a := range args {
-			if deepMention(e, st, a, isRorB, 0) {
+			if deepMention(e, st, a, isRorB, 0) || recCell(a) != nil {
 				yes = true
 			}
 		}
@@ -200,6 +257,12 @@ func checkFormatLoader(p *Program, r *Report, pre, short string) {
 
 	ob := newObligations()
 	parsers := map[*ssa.Function]bool{}
+	recSeen := map[string]string{}
+	defer func() {
+		for name, at := range recSeen {
+			r.Hold(pre+".tee", key+" recorder "+name, at, "hand-written recording reader accepted in place of io.TeeReader+bytes.Buffer: on every path of its Read the source is asked once with p itself, the recording becomes append(recording, p[:n]...) (or n <= 0), and (n, err) are returned unchanged; its replay is io.MultiReader(reader over the recording as it stands after the parser ran, r)")
+		}
+	}()
 	nRet := 0
 	for _, o := range outs {
 		where := p.Pos(o.Pos)
@@ -227,20 +290,100 @@ func checkFormatLoader(p *Program, r *Report, pre, short string) {
 				multis = append(multis, ev)
 			}
 		}
+		// a hand-written recorder (recorder.go) standing in for TeeReader + Buffer
+		var recC *Cell
+		var recI *recorderInfo
+		firstUse, parserIdx := -1, -1
 		if len(tees) == 0 {
-			ob.bad("tee", "no io.TeeReader(r, B) call on the path returning at "+where+": consumed bytes are not recorded for replay")
+			for k, ev := range st.events {
+				if ev.Kind == "recorder-store" {
+					continue
+				}
+				for _, v := range append([]Val{ev.Recv}, ev.Args...) {
+					if c := recorderCellIn(p, v, 0); c != nil && (recC == nil || recC == c) {
+						if recC == nil {
+							firstUse = k
+						}
+						recC = c
+					}
+				}
+			}
+			if recC != nil {
+				recI = recorderOf(p, recC.Type)
+			}
+		}
+		mentionsRec := func(v Val) bool { return recC != nil && recorderCellIn(p, v, 0) == recC }
+		if recC != nil {
+			for k, ev := range st.events {
+				if ev.Kind == "call" && ev.Callee != nil && isPrismFn(ev.Callee) {
+					for _, a := range ev.Args {
+						if mentionsRec(a) {
+							parserIdx = k
+						}
+					}
+				}
+			}
+		}
+		if len(tees) == 0 && recC == nil {
+			msg := "no io.TeeReader(r, B) call on the path returning at " + where + ": consumed bytes are not recorded for replay"
+			// a hand-written recording reader that does not keep the tee contract: say why
+			for _, ev := range st.events {
+				for _, v := range append([]Val{ev.Recv}, ev.Args...) {
+					if ptr, ok := v.(*Ptr); ok && ptr.Cell != nil && ptr.Cell.Alloc {
+						if ri := recorderOf(p, ptr.Cell.Type); ri != nil && ri.Why != "" {
+							msg = "the recording reader " + ri.T.Obj().Name() + " used at " + p.Pos(ev.Pos) + " does not keep io.TeeReader's contract: " + ri.Why
+						}
+					}
+				}
+			}
+			ob.bad("tee", msg)
 			continue
 		}
-		if B == nil || !B.Cell.Alloc {
+		if recC != nil {
+			recSeen[recI.T.Obj().Name()] = p.FnPos(recI.Read)
+		}
+		if recC == nil && (B == nil || !B.Cell.Alloc) {
 			ob.bad("buffer", "second argument of io.TeeReader at "+p.Pos(tees[0].Pos)+" is not a fresh *bytes.Buffer allocation")
 			continue
 		}
+		if recC != nil {
+			// the recorder reads from r and starts with an empty recording
+			cur, _ := e.cellVal(st, recC).(*Agg)
+			if cur == nil || len(cur.Elems) <= recI.Src || len(cur.Elems) <= recI.Rec {
+				ob.dunno("tee", "the recording reader's fields could not be read")
+				continue
+			}
+			if !isR(cur.Elems[recI.Src]) {
+				ob.bad("tee", "the recording reader "+recI.T.Obj().Name()+" reads from "+trunc(valKey(cur.Elems[recI.Src]), 80)+", not from the source reader r")
+			}
+			if sl, ok := cur.Elems[recI.Rec].(*SliceVal); !ok || !(sl.Nil || (sl.Len != nil && sl.Len.Equal(formInt(0)))) {
+				ob.bad("buffer", "the recording of "+recI.T.Obj().Name()+" does not start empty: "+trunc(valKey(cur.Elems[recI.Rec]), 80))
+			}
+		}
 		sameB := func(v Val) bool {
+			if recC != nil {
+				// bytes.NewBuffer / bytes.NewReader over the recording as it stands AFTER the parser ran
+				o, ok := v.(*Opaque)
+				if !ok || (o.Fn != "call:bytes.NewBuffer" && o.Fn != "call:bytes.NewReader") || len(o.Args) != 1 {
+					return false
+				}
+				sl, ok := o.Args[0].(*SliceVal)
+				if !ok || sl.Base == nil || sl.Base.Fn != "recorded" || len(sl.Base.Args) != 2 || !sl.Lo.Equal(formInt(0)) || !sl.Len.Equal(e.A.App("len", types.Typ[types.Int], sl.Base)) {
+					return false
+				}
+				cp, _ := sl.Base.Args[0].(*Ptr)
+				at, _ := sl.Base.Args[1].(*Form)
+				n, isC := int64(0), false
+				if at != nil {
+					n, isC = at.ConstInt()
+				}
+				return cp != nil && cp.Cell == recC && isC && parserIdx >= 0 && n > int64(parserIdx)
+			}
 			b, ok := isBufferPtr(v)
 			return ok && b.Cell == B.Cell
 		}
 		goodMulti := map[string]bool{}
-		for _, ev := range st.events {
+		for evIdx, ev := range st.events {
 			evPos := p.Pos(ev.Pos)
 			vals := append([]Val{ev.Recv}, ev.Args...)
 			switch {
@@ -276,6 +419,15 @@ func checkFormatLoader(p *Program, r *Report, pre, short string) {
 				}
 				continue
 			}
+			if recC != nil && ev.Kind == "recorder-store" {
+				if evIdx >= firstUse {
+					ob.bad("buffer", "the loader itself writes a field of the recording reader after handing it out (at "+evPos+"): what is replayed is no longer what was recorded")
+				}
+				continue
+			}
+			if recC != nil && ev.Kind == "call" && sameB(ev.Res) {
+				continue // the replay head: a reader over the recording, built after the parser ran
+			}
 			// any other event
 			for _, v := range vals {
 				if deepMention(e, st, v, isR, 0) {
@@ -290,7 +442,7 @@ func checkFormatLoader(p *Program, r *Report, pre, short string) {
 			}
 			fromTee := false
 			for _, v := range vals {
-				if derivedFrom(v, "call:io.TeeReader", 0) {
+				if derivedFrom(v, "call:io.TeeReader", 0) || mentionsRec(v) {
 					fromTee = true
 				}
 			}
